@@ -19,10 +19,13 @@ EXTENDS HugrValidity
 CONSTANTS RootInputs,     \* input row of the root Dfg, e.g. <<BoolT, QubitT>>
           MaxCalls, MaxDepth,
           Ops,            \* names of the alphabet operations a configuration uses
+          MaxBlocks,      \* blocks per CFG (entry included)
+          MaxArgs,        \* arguments of add_nested / add_cfg / set_outputs and the rest row of add_tail_loop (<= 2)
           Features        \* subset of {"load", "nested", "order", "cond", "loop"}: the builder calls a configuration explores
 
-VARIABLES nodes, links, ctxs, pending, done, used, calls, hist
-bvars == <<nodes, links, ctxs, pending, done, used, calls, hist>>
+VARIABLES nodes, links, ctxs, pending, done, used, calls, hist,
+          refused      \* "" or the error class the last (inconsistent) call must raise; such a call ends the program (C13)
+bvars == <<nodes, links, ctxs, pending, done, used, calls, hist, refused>>
 
 (* ---- the operation alphabet (wire vocabulary) ---- *)
 CustomOp(name, i, o) == [op |-> "Extension", extension |-> "verif.q", name |-> name, signature |-> FnT(i, o), description |-> "", args |-> <<>>]
@@ -40,6 +43,7 @@ OpBrk     == [op |-> "Tag", name |-> "Brk", tag |-> 1, variants |-> <<<<BoolT>>,
 Alphabet  == {OpNot, OpH, OpMeasure, OpAlloc, OpFree, OpSome, OpNone, OpCont, OpBrk}
 StripName(o) == IF o.op = "Tag" THEN [op |-> "Tag", tag |-> o.tag, variants |-> o.variants] ELSE o
 TrueV == [v |-> "Sum", tag |-> 1, typ |-> UnitSumT(2), vs |-> <<>>]
+UnitV == [v |-> "Sum", tag |-> 0, typ |-> UnitSumT(1), vs |-> <<>>]
 
 NodeOp(n) == nodes[n + 1].op
 NodePar(n) == nodes[n + 1].parent
@@ -58,19 +62,27 @@ RECURSIVE ValueAncB(_)
 ValueAncB(n) == IF n = 0 \/ NodeOp(n).op = "FuncDefn" THEN {n} ELSE {n} \cup ValueAncB(NodePar(n))
 
 (* value wires produced in the region of container c: outputs of its Input node and of the completed dataflow nodes in it *)
-Producers(c) == {n \in 0..(NNodes - 1) : n # 0 /\ NodePar(n) = c /\ n \in done /\ NodeOp(n).op \notin {"Output", "Const", "Case", "FuncDefn"}}
+Producers(c) == {n \in 0..(NNodes - 1) : n # 0 /\ NodePar(n) = c /\ n \in done /\ NodeOp(n).op \notin {"Output", "Const", "Case", "FuncDefn", "DataflowBlock", "ExitBlock"}}
 RegionWires(c) == UNION {{<<n, o>> : o \in 0..(Len(OutRow(n)) - 1)} : n \in Producers(c)}
 (* wires a new node in container c may take: local ones (linear ones only if unused), copyable ones of enclosing regions *)
+(* Dom wires: a node placed directly in a basic block may take a copyable value produced directly in another block of the same
+   CFG (the program owes dominance, checked when the CFG's region is closed; `_wire_up_port` of Block adds no order edge) *)
+DomWires(c) == IF "dom" \in Features /\ c # 0 /\ NodeOp(c).op = "DataflowBlock"
+               THEN {w \in UNION {RegionWires(a) : a \in {x \in 0..(NNodes - 1) : x # c /\ x # 0 /\ NodePar(x) = NodePar(c) /\ NodeOp(x).op = "DataflowBlock"}} :
+                       ~Linear(WireType(w))}
+               ELSE {}
 Usable(c) ==
   {w \in RegionWires(c) : ~(Linear(WireType(w)) /\ w \in used)}
-  \cup {w \in UNION {RegionWires(a) : a \in ValueAncB(c) \ {c}} : ~Linear(WireType(w))}
+  \cup {w \in UNION {RegionWires(a) : a \in ValueAncB(c) \ {c}} : ~Linear(WireType(w)) /\ w[1] \notin AncestorsB(c)}
+  \* (w[1] \notin AncestorsB(c): a CFG knows its outputs after the first exit branch, while its blocks may still be under construction)
+  \cup DomWires(c)
 
 Init ==
   /\ nodes = <<[op |-> [op |-> "DFG", signature |-> FnT(RootInputs, <<>>)], parent |-> 0],
                [op |-> [op |-> "Input", types |-> RootInputs], parent |-> 0],
                [op |-> [op |-> "Output", types |-> <<>>], parent |-> 0]>>
   /\ links = <<>> /\ ctxs = <<[node |-> 0, inp |-> 1, out |-> 2, kind |-> "dfg", cond |-> -1]>> /\ pending = {}
-  /\ done = {1} /\ used = {} /\ calls = 0 /\ hist = <<>>
+  /\ done = {1} /\ used = {} /\ calls = 0 /\ hist = <<>> /\ refused = ""
 
 (* `_wire_up(node, args)`: for argument i, the order edge to the sibling ancestor if the wire is non-local, then the link *)
 RECURSIVE WireUp(_, _, _, _, _)
@@ -79,7 +91,7 @@ WireUp(ls, node, c, args, i) ==        \* node (possibly not yet in `nodes`) is 
   ELSE LET src == args[i]
            anc == IF NodePar(src[1]) = c THEN node ELSE AncSibB(NodePar(src[1]), c)
            ord == <<src[1], -1, anc, -1>>
-           ls1 == IF anc # node /\ \A k \in 1..Len(ls) : ls[k] # ord THEN Append(ls, ord) ELSE ls
+           ls1 == IF anc >= 0 /\ anc # node /\ \A k \in 1..Len(ls) : ls[k] # ord THEN Append(ls, ord) ELSE ls     \* anc < 0: a Dom wire
        IN WireUp(Append(ls1, <<src[1], src[2], node, i - 1>>), node, c, args, i + 1)
 LinearArgs(args) == {args[i] : i \in {j \in 1..Len(args) : Linear(WireType(args[j]))}}
 Distinct(args) == \A i, j \in 1..Len(args) : (i # j /\ Linear(WireType(args[i]))) => args[i] # args[j]
@@ -94,15 +106,16 @@ AddOp(k, o, args) ==
   /\ done' = done \cup {n} /\ used' = used \cup LinearArgs(args)
   /\ calls' = calls + 1 /\ UNCHANGED <<ctxs, pending>>
   /\ hist' = Append(hist, [a |-> "AddOp", ctx |-> c, op |-> o.name, args |-> args])
-(* load(value): Const node, then LoadConstant node, then the static edge *)
-Load(k) ==
+(* load(value): Const node, then LoadConstant node, then the static edge; unit = FALSE loads TRUE : Bool, unit = TRUE loads the
+   unit value (what set_single_succ_outputs branches on) *)
+Load(k, unit) ==
   LET c == ctxs[k].node n == NNodes IN
   /\ calls < MaxCalls
-  /\ nodes' = nodes \o <<[op |-> [op |-> "Const", v |-> TrueV], parent |-> c],
-                         [op |-> [op |-> "LoadConstant", datatype |-> BoolT], parent |-> c]>>
+  /\ nodes' = nodes \o <<[op |-> [op |-> "Const", v |-> IF unit THEN UnitV ELSE TrueV], parent |-> c],
+                         [op |-> [op |-> "LoadConstant", datatype |-> IF unit THEN UnitSumT(1) ELSE BoolT], parent |-> c]>>
   /\ links' = Append(links, <<n, 0, n + 1, 0>>)
   /\ done' = done \cup {n, n + 1} /\ calls' = calls + 1 /\ UNCHANGED <<ctxs, used, pending>>
-  /\ hist' = Append(hist, [a |-> "Load", ctx |-> c])
+  /\ hist' = Append(hist, [a |-> IF unit THEN "LoadUnit" ELSE "Load", ctx |-> c])
 (* add_nested(args...): DFG node (inputs = argument types), its Input and Output, then the arguments are wired to it *)
 AddNested(k, args) ==
   LET c == ctxs[k].node n == NNodes
@@ -129,7 +142,8 @@ AddStateOrder(k, a, b) ==
 (* add_conditional(cond_wire, others...): the Conditional node, then for every variant a Case node with its Input and Output
    (all cases are created up front), then the arguments are wired to the Conditional *)
 CondRows(t) == SumRows(t)
-AddConditional(k, cw, others) ==
+CaseCtx(n, i) == [node |-> n + 1 + 3 * (i - 1), inp |-> n + 2 + 3 * (i - 1), out |-> n + 3 + 3 * (i - 1), kind |-> "case", cond |-> n]     \* i-th case (1-based) of the conditional n
+CondCommon(k, cw, others) ==
   LET c == ctxs[k].node n == NNodes
       rows == CondRows(WireType(cw))
       orow == [i \in 1..Len(others) |-> WireType(others[i])]
@@ -142,10 +156,17 @@ AddConditional(k, cw, others) ==
   /\ nodes' = nodes \o <<[op |-> [op |-> "Conditional", sum_rows |-> rows, other_inputs |-> orow, outputs |-> <<>>, extension_delta |-> <<>>],
                             parent |-> c]>> \o AllCases(1)
   /\ links' = WireUp(links, n, c, <<cw>> \o others, 1)
-  /\ pending' = pending \cup {[node |-> n + 1 + 3 * (i - 1), inp |-> n + 2 + 3 * (i - 1), out |-> n + 3 + 3 * (i - 1), kind |-> "case", cond |-> n] : i \in 1..Len(rows)}
   /\ done' = done \cup {n + 2 + 3 * (i - 1) : i \in 1..Len(rows)}
-  /\ used' = used \cup LinearArgs(<<cw>> \o others) /\ calls' = calls + 1 /\ UNCHANGED ctxs
-  /\ hist' = Append(hist, [a |-> "AddConditional", ctx |-> c, args |-> <<cw>> \o others])
+  /\ used' = used \cup LinearArgs(<<cw>> \o others) /\ calls' = calls + 1
+AddConditional(k, cw, others) ==
+  /\ CondCommon(k, cw, others)
+  /\ pending' = pending \cup {CaseCtx(NNodes, i) : i \in 1..2} /\ UNCHANGED ctxs
+  /\ hist' = Append(hist, [a |-> "AddConditional", ctx |-> ctxs[k].node, args |-> <<cw>> \o others])
+(* add_if(cond, others...) = add_conditional + add_case(1) in one call; If.add_else() = add_case(0) *)
+AddIf(k, cw, others) ==
+  /\ CondCommon(k, cw, others) /\ NormT(WireType(cw)) = NormT(BoolT)
+  /\ ctxs' = Append(ctxs, CaseCtx(NNodes, 2)) /\ pending' = pending \cup {CaseCtx(NNodes, 1)}
+  /\ hist' = Append(hist, [a |-> "AddIf", ctx |-> ctxs[k].node, args |-> <<cw>> \o others])
 (* add_tail_loop(just_inputs, rest): the TailLoop node (just_outputs still unknown), its Input (just_inputs ++ rest) and Output,
    then the arguments are wired to it *)
 AddTailLoop(k, just, rest) ==
@@ -191,13 +212,122 @@ LoadF(k, f) ==
   /\ links' = Append(links, <<f, 0, n, 0>>)
   /\ done' = done \cup {n} /\ calls' = calls + 1 /\ UNCHANGED <<ctxs, used, pending>>
   /\ hist' = Append(hist, [a |-> "LoadFunction", ctx |-> c, f |-> f])
-(* add_case(i): start building one of the cases *)
+(* ---- the document the current store serializes to (complete in Finished states) ---- *)
+WOff(n, o, dir) == IF o = -1 THEN OrderOffset(NodeOp(n), dir) ELSE o
+Doc == [nodes |-> [k \in 1..NNodes |-> [parent |-> nodes[k].parent] @@ nodes[k].op],
+        edges |-> [j \in 1..Len(links) |-> <<<<links[j][1], WOff(links[j][1], links[j][2], "out")>>,
+                                             <<links[j][3], WOff(links[j][3], links[j][4], "in")>>>>]]
+DomUsesOK(g) == \A j \in 1..Len(links) :
+  LET a == NodePar(links[j][1]) b == NodePar(links[j][3]) IN
+  (links[j][2] >= 0 /\ a # b /\ a # 0 /\ b # 0 /\ NodePar(a) = g /\ NodePar(b) = g /\ NodeOp(a).op = "DataflowBlock") => Dominates(Doc, g, a, b)
+(* ---- control-flow graphs ----
+   add_cfg(args...): the CFG node, the entry block (DataflowBlock with the CFG's inputs, its Input and Output), the exit block
+   (second child), then the arguments are wired to the CFG. Blocks are dataflow contexts of kind "block" (cond = their CFG). *)
+BlockNodes(n, parent, row) ==
+  <<[op |-> [op |-> "DataflowBlock", inputs |-> row, other_outputs |-> <<>>, sum_rows |-> <<>>, extension_delta |-> <<>>], parent |-> parent],
+    [op |-> [op |-> "Input", types |-> row], parent |-> n],
+    [op |-> [op |-> "Output", types |-> <<>>], parent |-> n]>>
+BlockCtx(n, g) == [node |-> n, inp |-> n + 1, out |-> n + 2, kind |-> "block", cond |-> g]
+Cfgs == {n \in 0..(NNodes - 1) : NodeOp(n).op = "CFG"}
+ExitOf(g) == g + 4
+BlocksOf(g) == {n \in 0..(NNodes - 1) : NodePar(n) = g /\ NodeOp(n).op = "DataflowBlock"}
+SuccLinked(b, i) == \E j \in 1..Len(links) : links[j][1] = b /\ links[j][2] = i
+FreeSucc(g) == {<<b, i>> \in BlocksOf(g) \X (0..2) : b \in done /\ i < Len(NodeOp(b).sum_rows) /\ ~SuccLinked(b, i)}
+CfgComplete(g) == /\ ExitOf(g) \in done /\ FreeSucc(g) = {} /\ BlocksOf(g) \subseteq done
+                  /\ \A p \in pending : p.cond # g
+CfgRows == {<<>>, <<BoolT>>, <<QubitT>>}
+AddCfg(k, args) ==
+  LET c == ctxs[k].node n == NNodes
+      row == [i \in 1..Len(args) |-> WireType(args[i])] IN
+  /\ calls < MaxCalls /\ Distinct(args)
+  /\ nodes' = nodes \o <<[op |-> [op |-> "CFG", signature |-> FnT(row, <<>>)], parent |-> c]>> \o BlockNodes(n + 1, n, row)
+                       \o <<[op |-> [op |-> "ExitBlock", cfg_outputs |-> <<>>], parent |-> n]>>
+  /\ links' = WireUp(links, n, c, args, 1)
+  /\ pending' = pending \cup {BlockCtx(n + 1, n)}
+  /\ done' = done \cup {n + 2} /\ used' = used \cup LinearArgs(args) /\ calls' = calls + 1 /\ UNCHANGED ctxs
+  /\ hist' = Append(hist, [a |-> "AddCfg", ctx |-> c, args |-> args])
+(* add_block(types...) / add_successor(pred[i]): a new block; the latter takes the row successor i of pred receives and links it *)
+AddBlock(g, row) ==
+  LET n == NNodes IN
+  /\ calls < MaxCalls /\ NodePar(g) = ctxs[Len(ctxs)].node
+  /\ nodes' = nodes \o BlockNodes(n, g, row)
+  /\ ctxs' = Append(ctxs, BlockCtx(n, g)) /\ done' = done \cup {n + 1} /\ calls' = calls + 1 /\ UNCHANGED <<links, used, pending>>
+  /\ hist' = Append(hist, [a |-> "AddBlock", ctx |-> g, row |-> row])
+AddSuccessor(g, b, i) ==
+  LET n == NNodes row == SuccOutputs(NodeOp(b), i) IN
+  /\ calls < MaxCalls /\ NodePar(g) = ctxs[Len(ctxs)].node /\ <<b, i>> \in FreeSucc(g)
+  /\ nodes' = nodes \o BlockNodes(n, g, row)
+  /\ links' = Append(links, <<b, i, n, 0>>)
+  /\ ctxs' = Append(ctxs, BlockCtx(n, g)) /\ done' = done \cup {n + 1} /\ calls' = calls + 1 /\ UNCHANGED <<used, pending>>
+  /\ hist' = Append(hist, [a |-> "AddSuccessor", ctx |-> g, b |-> b, i |-> i])
+(* branch(pred[i], dst) between existing blocks (loops and the entry block included) *)
+Branch(g, b, i, dst) ==
+  /\ calls < MaxCalls /\ <<b, i>> \in FreeSucc(g) /\ dst \in BlocksOf(g)
+  /\ NormRow(SuccOutputs(NodeOp(b), i)) = NormRow(NodeOp(dst).inputs)
+  /\ links' = Append(links, <<b, i, dst, 0>>) /\ calls' = calls + 1 /\ UNCHANGED <<nodes, ctxs, done, used, pending>>
+  /\ hist' = Append(hist, [a |-> "Branch", ctx |-> g, b |-> b, i |-> i, dst |-> dst])
+(* branch_exit(pred[i]): the first one establishes the outputs of the exit block and of the CFG, later ones must agree *)
+BranchExit(g, b, i) ==
+  LET row == SuccOutputs(NodeOp(b), i) e == ExitOf(g) IN
+  /\ calls < MaxCalls /\ <<b, i>> \in FreeSucc(g)
+  /\ e \in done => NormRow(row) = NormRow(NodeOp(e).cfg_outputs)
+  /\ nodes' = IF e \in done THEN nodes ELSE [nodes EXCEPT ![e + 1].op.cfg_outputs = row, ![g + 1].op.signature.output = row]
+  /\ links' = Append(links, <<b, i, e, 0>>)
+  /\ done' = done \cup {e, g} /\ calls' = calls + 1 /\ UNCHANGED <<ctxs, used, pending>>
+  /\ hist' = Append(hist, [a |-> "BranchExit", ctx |-> g, b |-> b, i |-> i])
+(* ---- insert_nested / insert_tail_loop / insert_conditional / insert_cfg ----
+   A HUGR built beforehand with a stand-alone builder is copied under the current container (`Hugr.insert_hugr`: nodes in
+   hierarchy order, which for a builder-made HUGR is index order, so node j of the template becomes node n + j; then its links),
+   and the arguments are wired to the copy of its root. The templates are what the stand-alone builders produce for fixed small
+   programs (the replay builds them with the real builders, so a wrong template shows as a mismatch on the unchanged tree). *)
+TNode(o, p) == [op |-> o, parent |-> p]
+Templates == [
+  id |->      \* Dfg(Bool): set_outputs(in0)
+    [nodes |-> <<TNode([op |-> "DFG", signature |-> FnT(<<BoolT>>, <<BoolT>>)], 0), TNode([op |-> "Input", types |-> <<BoolT>>], 0),
+                 TNode([op |-> "Output", types |-> <<BoolT>>], 0)>>,
+     links |-> <<<<1, 0, 2, 0>>>>],
+  nestext |->  \* Dfg(Bool): a nested Dfg() whose Not takes the outer input (Ext wire + order edge); set_outputs(nested[0])
+    [nodes |-> <<TNode([op |-> "DFG", signature |-> FnT(<<BoolT>>, <<BoolT>>)], 0), TNode([op |-> "Input", types |-> <<BoolT>>], 0),
+                 TNode([op |-> "Output", types |-> <<BoolT>>], 0),
+                 TNode([op |-> "DFG", signature |-> FnT(<<>>, <<BoolT>>)], 0), TNode([op |-> "Input", types |-> <<>>], 3),
+                 TNode([op |-> "Output", types |-> <<BoolT>>], 3), TNode(OpNot, 3)>>,
+     links |-> <<<<1, -1, 3, -1>>, <<1, 0, 6, 0>>, <<6, 0, 5, 0>>, <<3, 0, 2, 0>>>>],
+  loop |->     \* TailLoop([Bool], [Qubit]): ctl = Tag(0, Sum([[Bool], []]))(in0) (continue with the Bool), set_loop_outputs(ctl, in1)
+    [nodes |-> <<TNode([op |-> "TailLoop", just_inputs |-> <<BoolT>>, just_outputs |-> <<>>, rest |-> <<QubitT>>, extension_delta |-> <<>>], 0),
+                 TNode([op |-> "Input", types |-> <<BoolT, QubitT>>], 0),
+                 TNode([op |-> "Output", types |-> <<GenSumT(<<<<BoolT>>, <<>>>>), QubitT>>], 0),
+                 TNode([op |-> "Tag", tag |-> 0, variants |-> <<<<BoolT>>, <<>>>>], 0)>>,
+     links |-> <<<<1, 0, 3, 0>>, <<3, 0, 2, 0>>, <<1, 1, 2, 1>>>>],
+  cond |->     \* Conditional(Bool, [Bool]): both cases return their input
+    [nodes |-> <<TNode([op |-> "Conditional", sum_rows |-> <<<<>>, <<>>>>, other_inputs |-> <<BoolT>>, outputs |-> <<BoolT>>, extension_delta |-> <<>>], 0),
+                 TNode([op |-> "Case", signature |-> FnT(<<BoolT>>, <<BoolT>>)], 0), TNode([op |-> "Input", types |-> <<BoolT>>], 1),
+                 TNode([op |-> "Output", types |-> <<BoolT>>], 1),
+                 TNode([op |-> "Case", signature |-> FnT(<<BoolT>>, <<BoolT>>)], 0), TNode([op |-> "Input", types |-> <<BoolT>>], 4),
+                 TNode([op |-> "Output", types |-> <<BoolT>>], 4)>>,
+     links |-> <<<<2, 0, 3, 0>>, <<5, 0, 6, 0>>>>],
+  cfg |->      \* Cfg(Bool): the entry block branches on its input, both successors are the exit
+    [nodes |-> <<TNode([op |-> "CFG", signature |-> FnT(<<BoolT>>, <<>>)], 0),
+                 TNode([op |-> "DataflowBlock", inputs |-> <<BoolT>>, other_outputs |-> <<>>, sum_rows |-> <<<<>>, <<>>>>, extension_delta |-> <<>>], 0),
+                 TNode([op |-> "Input", types |-> <<BoolT>>], 1), TNode([op |-> "Output", types |-> <<BoolT>>], 1),
+                 TNode([op |-> "ExitBlock", cfg_outputs |-> <<>>], 0)>>,
+     links |-> <<<<2, 0, 3, 0>>, <<1, 0, 4, 0>>, <<1, 1, 4, 0>>>>]]
+Insert(k, name, args) ==
+  LET c == ctxs[k].node n == NNodes T == Templates[name]
+      tn == [j \in 1..Len(T.nodes) |-> [op |-> T.nodes[j].op, parent |-> IF j = 1 THEN c ELSE T.nodes[j].parent + n]]
+      tl == [j \in 1..Len(T.links) |-> <<T.links[j][1] + n, T.links[j][2], T.links[j][3] + n, T.links[j][4]>>] IN
+  /\ calls < MaxCalls
+  /\ nodes' = nodes \o tn
+  /\ links' = WireUp(links \o tl, n, c, args, 1)
+  /\ done' = done \cup {n + j - 1 : j \in 1..Len(T.nodes)} /\ used' = used \cup LinearArgs(args)
+  /\ calls' = calls + 1 /\ UNCHANGED <<ctxs, pending>>
+  /\ hist' = Append(hist, [a |-> "Insert", ctx |-> c, t |-> name, args |-> args])
+(* add_case(i) / add_entry(): start building one of the cases, or the entry block *)
 AddCase(p) ==
   /\ calls < MaxCalls /\ p \in pending /\ Len(ctxs) < MaxDepth + 1
   /\ NodePar(p.cond) = ctxs[Len(ctxs)].node                       \* the conditional lives in the innermost open region
   /\ ctxs' = Append(ctxs, p) /\ pending' = pending \ {p} /\ calls' = calls + 1
   /\ UNCHANGED <<nodes, links, done, used>>
-  /\ hist' = Append(hist, [a |-> "AddCase", ctx |-> p.cond, i |-> (p.node - p.cond - 1) \div 3])
+  /\ hist' = Append(hist, IF p.kind = "block" THEN [a |-> "AddEntry", ctx |-> p.cond] ELSE [a |-> "AddCase", ctx |-> p.cond, i |-> (p.node - p.cond - 1) \div 3])
 (* set_outputs(args...) of the innermost open context: wires the Output node, completes Output and the container op;
    for a case also the Conditional: the first case fixes its outputs, every later one must produce the same row *)
 SetOutputs(args) ==
@@ -207,14 +337,17 @@ SetOutputs(args) ==
       isCase == cx.kind = "case"
       isLoop == cx.kind = "loop"
       isFunc == cx.kind \in {"func", "funcd"}
+      isBlock == cx.kind = "block"
       ctl == SumRows(row[1])                                        \* loop only: the rows of the controlling sum
       condOuts == IF isCase THEN NodeOp(cx.cond).outputs ELSE <<>>
       firstCase == isCase /\ (\A q \in 0..(NNodes - 1) : (NodePar(q) = cx.cond) => q \notin done)
-      siblingsOpen == {p \in pending : p.cond = cx.cond}
+      siblingsOpen == {p \in pending : p.kind = "case" /\ p.cond = cx.cond}
       condDone == isCase /\ siblingsOpen = {} /\ \A q \in 0..(NNodes - 1) : (NodePar(q) = cx.cond /\ q # c) => q \in done IN
   /\ calls < MaxCalls
   /\ Distinct(args)
   /\ leftover \subseteq LinearArgs(args)                           \* every linear value of the region is consumed
+  /\ \A g \in Cfgs : NodePar(g) = c => CfgComplete(g) /\ DomUsesOK(g)      \* every CFG of this region is complete, Dom wires dominate
+  /\ isBlock => Len(args) >= 1 /\ IsSumT(row[1]) /\ Len(SumRows(row[1])) >= 1
   /\ (cx.kind = "funcd") => NormRow(row) = NormRow(NodeOp(c).signature.body.output)     \* declared outputs are matched
   /\ isLoop => /\ Len(args) >= 1 /\ IsSumT(row[1]) /\ Len(ctl) = 2
                /\ NormRow(ctl[1]) = NormRow(NodeOp(c).just_inputs)          \* continue variant = just_inputs
@@ -224,6 +357,7 @@ SetOutputs(args) ==
   /\ nodes' = IF isCase
                 THEN [nodes EXCEPT ![out + 1].op.types = row, ![c + 1].op.signature.output = row, ![cx.cond + 1].op.outputs = row]
                 ELSE IF isLoop THEN [nodes EXCEPT ![out + 1].op.types = row, ![c + 1].op.just_outputs = ctl[2]]
+                ELSE IF isBlock THEN [nodes EXCEPT ![out + 1].op.types = row, ![c + 1].op.sum_rows = SumRows(row[1]), ![c + 1].op.other_outputs = Tail(row)]
                 ELSE IF isFunc THEN [nodes EXCEPT ![out + 1].op.types = row, ![c + 1].op.signature.body.output = row]
                 ELSE [nodes EXCEPT ![out + 1].op.types = row, ![c + 1].op.signature.output = row]
   /\ links' = WireUp(links, out, c, args, 1)
@@ -235,35 +369,102 @@ SetOutputs(args) ==
 (* Arguments always range over Usable(container): well-formed programs only (see the header). WiresUpTo(U, m) = sequences of <= m wires *)
 WiresUpTo(U, m) == UNION {[1..j -> U] : j \in 0..m}
 Next ==
-  /\ calls < MaxCalls
+  /\ calls < MaxCalls /\ refused = "" /\ refused' = ""
   /\ \/ \E k \in 1..Len(ctxs), o \in {x \in Alphabet : x.name \in Ops} : \E args \in ArgsFor(ctxs[k].node, DfSig(o)[1]) : AddOp(k, o, args)
-     \/ "load" \in Features /\ \E k \in 1..Len(ctxs) : Load(k)
+     \/ "load" \in Features /\ \E k \in 1..Len(ctxs) : Load(k, FALSE)
+     \/ "unit" \in Features /\ \E k \in 1..Len(ctxs) : Load(k, TRUE)
      \/ "order" \in Features /\ \E k \in 1..Len(ctxs), a, b \in 0..(NNodes - 1) : AddStateOrder(k, a, b)
      \/ Len(ctxs) >= 1 /\ Len(ctxs) < MaxDepth /\
           LET k == Len(ctxs) U == Usable(ctxs[k].node) IN
-          \/ "nested" \in Features /\ \E args \in WiresUpTo(U, 2) : AddNested(k, args)
+          \/ "nested" \in Features /\ \E args \in WiresUpTo(U, MaxArgs) : AddNested(k, args)
           \/ "cond" \in Features /\ \E cw \in {w \in U : IsSumT(WireType(w))} : \E others \in WiresUpTo(U, 1) : AddConditional(k, cw, others)
-          \/ "loop" \in Features /\ \E just \in WiresUpTo(U, 1) : \E rest \in WiresUpTo(U, 2) : AddTailLoop(k, just, rest)
+          \/ "if" \in Features /\ \E cw \in {w \in U : IsSumT(WireType(w))} : \E others \in WiresUpTo(U, 1) : AddIf(k, cw, others)
+          \/ "loop" \in Features /\ \E just \in WiresUpTo(U, 1) : \E rest \in WiresUpTo(U, MaxArgs) : AddTailLoop(k, just, rest)
      \/ \E p \in pending : AddCase(p)
+     \/ "insert" \in Features /\ \E k \in 1..Len(ctxs), name \in DOMAIN Templates :
+          \E args \in ArgsFor(ctxs[k].node, DfSig(Templates[name].nodes[1].op)[1]) : Insert(k, name, args)
+     \/ "cfg" \in Features /\ Len(ctxs) >= 1 /\ Len(ctxs) < MaxDepth /\
+          LET k == Len(ctxs) IN \E args \in WiresUpTo(Usable(ctxs[k].node), MaxArgs) : AddCfg(k, args)
+     \/ "cfg" \in Features /\ Len(ctxs) >= 1 /\ Len(ctxs) < MaxDepth + 1 /\
+          \E g \in {x \in Cfgs : Cardinality(BlocksOf(x)) < MaxBlocks} :
+             \/ \E row \in CfgRows : AddBlock(g, row)
+             \/ \E x \in FreeSucc(g) : AddSuccessor(g, x[1], x[2])
+     \/ "cfg" \in Features /\ \E g \in Cfgs : \E x \in FreeSucc(g) :
+             \/ BranchExit(g, x[1], x[2])
+             \/ \E dst \in BlocksOf(g) : Branch(g, x[1], x[2], dst)
      \/ "func" \in Features /\ Len(ctxs) < MaxDepth /\ \E ins \in FuncRows : \E d \in BOOLEAN : \E outs \in (IF d THEN FuncRows ELSE {<<>>}) : DefineFunction(ins, d, outs)
      \/ "func" \in Features /\ \E k \in 1..Len(ctxs), f \in Callable : \/ \E args \in ArgsFor(ctxs[k].node, NodeOp(f).signature.body.input) : CallF(k, f, args)
                                                                       \/ LoadF(k, f)
-     \/ Len(ctxs) >= 1 /\ ctxs[Len(ctxs)].kind # "loop" /\ \E args \in WiresUpTo(Usable(ctxs[Len(ctxs)].node), 2) : SetOutputs(args)
+     \/ Len(ctxs) >= 1 /\ ctxs[Len(ctxs)].kind # "loop" /\ \E args \in WiresUpTo(Usable(ctxs[Len(ctxs)].node), MaxArgs) : SetOutputs(args)
      \/ Len(ctxs) >= 1 /\ ctxs[Len(ctxs)].kind = "loop" /\
           LET c == ctxs[Len(ctxs)].node IN
           \E s \in {w \in Usable(c) : IsSumT(WireType(w))} : \E r \in ArgsFor(c, NodeOp(c).rest) : SetOutputs(<<s>> \o r)
-Spec == Init /\ [][Next]_bvars
+(* ---- inconsistent calls (C13): exactly one, anywhere in a well-formed program; the builder must raise the stated error ---- *)
+AllWires == UNION {{<<n, o>> : o \in 0..(Len(OutRow(n)) - 1)} :
+                     n \in {x \in 1..(NNodes - 1) : x \in done /\ NodeOp(x).op \notin {"Output", "Const", "Case", "FuncDefn", "DataflowBlock", "ExitBlock"}}}
+IsBlockNode(c) == c # 0 /\ NodeOp(c).op = "DataflowBlock"
+(* what `_wire_up_port` does with a wire whose source region is sp, for a new node placed in container c *)
+WireVerdict(c, w) ==
+  LET sp == NodePar(w[1]) IN
+  IF sp \in ValueAncB(c) THEN "ok"
+  ELSE IF IsBlockNode(c)
+       THEN LET g == NodePar(c) IN
+            IF sp # 0 /\ g \in AncestorsB(sp) THEN (IF NodePar(sp) = g THEN "ok" ELSE "NoSiblingAncestor")    \* Dom wire, or nested below a block
+            ELSE "NotInSameCfg"
+       ELSE "NoSiblingAncestor"
+BadWires(c) == {w \in AllWires : WireVerdict(c, w) # "ok" /\ w[1] \notin AncestorsB(c)}
+Refuse(ev, cls) == /\ hist' = Append(hist, ev) /\ refused' = cls /\ calls' = calls + 1
+                   /\ UNCHANGED <<nodes, links, ctxs, pending, done, used>>
+Bad_Wire(k, o, w) ==             \* add_op of a one-input operation whose argument comes from a region that is not visible
+  LET c == ctxs[k].node IN
+  /\ Len(DfSig(o)[1]) = 1 /\ NormT(WireType(w)) = NormT(DfSig(o)[1][1]) /\ w \in BadWires(c)
+  /\ Refuse([a |-> "AddOp", ctx |-> c, op |-> o.name, args |-> <<w>>], WireVerdict(c, w))
+Bad_OutputWire(w) ==             \* set_outputs with such a wire
+  LET c == ctxs[Len(ctxs)].node IN
+  /\ ctxs[Len(ctxs)].kind \in {"dfg", "case", "func"} /\ w \in BadWires(c)
+  /\ Refuse([a |-> "SetOutputs", ctx |-> c, args |-> <<w>>], WireVerdict(c, w))
+Conds == {n \in 0..(NNodes - 1) : NodeOp(n).op = "Conditional"}
+OpenRegions == {ctxs[j].node : j \in 1..Len(ctxs)}
+Bad_CaseDisagree(args) ==        \* a later case returns another row than the first finished one
+  LET cx == ctxs[Len(ctxs)] c == cx.node row == [i \in 1..Len(args) |-> WireType(args[i])] IN
+  /\ cx.kind = "case" /\ (\E q \in 0..(NNodes - 1) : NodePar(q) = cx.cond /\ q \in done)
+  /\ Distinct(args) /\ NormRow(row) # NormRow(NodeOp(cx.cond).outputs)
+  /\ Refuse([a |-> "SetOutputs", ctx |-> c, args |-> args], "ConditionalError")
+Bad_CaseIndex(g, i) ==           \* add_case of a case that was already started, or of an index out of range
+  /\ NodePar(g) \in OpenRegions /\ (i \in {-1, 2} \/ CaseCtx(g, i + 1) \notin pending)
+  /\ Refuse([a |-> "AddCase", ctx |-> g, i |-> i], "ConditionalError")
+Bad_CondExit(g) ==               \* leaving the conditional's context with unbuilt cases
+  /\ NodePar(g) \in OpenRegions /\ (\E p \in pending : p.kind = "case" /\ p.cond = g)
+  /\ Refuse([a |-> "ExitConditional", ctx |-> g], "ConditionalError")
+Bad_ExitMismatch(g, b, i) ==     \* an exit branch carrying another row than the established one
+  /\ <<b, i>> \in FreeSucc(g) /\ ExitOf(g) \in done /\ NormRow(SuccOutputs(NodeOp(b), i)) # NormRow(NodeOp(ExitOf(g)).cfg_outputs)
+  /\ Refuse([a |-> "BranchExit", ctx |-> g, b |-> b, i |-> i], "MismatchedExit")
+Bad_FuncOutputs(args) ==         \* outputs other than the declared ones
+  LET cx == ctxs[Len(ctxs)] c == cx.node row == [i \in 1..Len(args) |-> WireType(args[i])] IN
+  /\ cx.kind = "funcd" /\ Distinct(args) /\ NormRow(row) # NormRow(NodeOp(c).signature.body.output)
+  /\ Refuse([a |-> "SetOutputs", ctx |-> c, args |-> args], "ValueError")
+Bad_Serialize ==                 \* serializing while some operation is still incomplete
+  /\ (\E n \in 0..(NNodes - 1) : n \notin done)
+  /\ Refuse([a |-> "Serialize", ctx |-> 0], "IncompleteOp")
+BadNext ==
+  /\ "refuse" \in Features /\ calls < MaxCalls /\ refused = ""
+  /\ \/ \E k \in 1..Len(ctxs), o \in {x \in Alphabet : x.name \in Ops} : \E w \in BadWires(ctxs[k].node) : Bad_Wire(k, o, w)
+     \/ Len(ctxs) >= 1 /\ \E w \in BadWires(ctxs[Len(ctxs)].node) : Bad_OutputWire(w)
+     \/ Len(ctxs) >= 1 /\ \E args \in WiresUpTo(Usable(ctxs[Len(ctxs)].node), 2) : Bad_CaseDisagree(args) \/ Bad_FuncOutputs(args)
+     \/ \E g \in Conds : (\E i \in -1..2 : Bad_CaseIndex(g, i)) \/ Bad_CondExit(g)
+     \/ \E g \in Cfgs : \E x \in FreeSucc(g) : Bad_ExitMismatch(g, x[1], x[2])
+     \/ Bad_Serialize
+Spec == Init /\ [][Next \/ BadNext]_bvars
 (* bounded exploration only: a program that can no longer be finished within MaxCalls calls (every open context needs its
    set_outputs, every unbuilt case an add_case and a set_outputs) is not extended; no finished program of <= MaxCalls calls is lost *)
-CanFinish == calls + Len(ctxs) + 2 * Cardinality(pending) <= MaxCalls
-NextB == Next /\ CanFinish'
+OpenBlocks == {j \in 1..Len(ctxs) : ctxs[j].kind = "block"}
+CanFinish == calls + Len(ctxs) + 2 * Cardinality({p \in pending : p.kind = "case"}) + 3 * Cardinality({p \in pending : p.kind = "block"})
+                   + Cardinality(OpenBlocks)                                  \* an open block will have >= 1 successor to link
+                   + Cardinality(UNION {FreeSucc(g) : g \in Cfgs}) <= MaxCalls
+NextB == (Next /\ (CanFinish' \/ "refuse" \in Features)) \/ BadNext      \* (an inconsistent call may come at any point of a program, finishable in budget or not)
 
 (* ---- the document a finished program serializes to ---- *)
-Finished == ctxs = <<>> /\ pending = {}
-WOff(n, o, dir) == IF o = -1 THEN OrderOffset(NodeOp(n), dir) ELSE o
-Doc == [nodes |-> [k \in 1..NNodes |-> [parent |-> nodes[k].parent] @@ nodes[k].op],
-        edges |-> [j \in 1..Len(links) |-> <<<<links[j][1], WOff(links[j][1], links[j][2], "out")>>,
-                                             <<links[j][3], WOff(links[j][3], links[j][4], "in")>>>>]]
+Finished == ctxs = <<>> /\ pending = {} /\ refused = ""
 (* C01 for this fragment *)
 FinishedValid == Finished => (User(Doc) /\ Builder(Doc))
 (* every handle's output count (C16 b): the number of value outputs of the node's completed operation *)
